@@ -147,7 +147,15 @@ fn first_elem(v: Option<&J>, src: &mut Src) -> Option<J> {
 fn gen_multi(src: &mut Src, d: usize, hint: Option<&J>, o: &ExprOpts) -> RefExpr {
     if src.flip() {
         let n = 1 + src.below(3);
-        RefExpr::MultiList((0..n).map(|_| gen_expr(src, d + 1, hint, o)).collect())
+        let mut es: Vec<RefExpr> = vec![];
+        for _ in 0..n {
+            if !es.is_empty() && src.chance(24) {
+                es.push(es[0].clone());
+            } else {
+                es.push(gen_expr(src, d + 1, hint, o));
+            }
+        }
+        RefExpr::MultiList(es)
     } else {
         let n = 1 + src.below(3);
         let mut seen = BTreeSet::new();
@@ -405,13 +413,27 @@ pub fn gen_expr(src: &mut Src, d: usize, hint: Option<&J>, o: &ExprOpts) -> RefE
             let r = gen_expr(src, d + 1, lv.as_ref(), o);
             RefExpr::Pipe(b(l), b(r))
         }
-        5 => RefExpr::Or(b(gen_expr(src, d + 1, hint, o)), b(gen_expr(src, d + 1, hint, o))),
-        6 => RefExpr::And(b(gen_expr(src, d + 1, hint, o)), b(gen_expr(src, d + 1, hint, o))),
+        5 | 6 => {
+            // sometimes the very same sub-expression on both sides
+            let l = gen_expr(src, d + 1, hint, o);
+            let r = if src.chance(30) { l.clone() } else { gen_expr(src, d + 1, hint, o) };
+            if src.flip() {
+                RefExpr::Or(b(l), b(r))
+            } else {
+                RefExpr::And(b(l), b(r))
+            }
+        }
         7 => {
             let l = gen_expr(src, d + 1, hint, o);
             let lv = hint_eval(&l, hint);
             let op = *src.pick(&CmpOp::ALL);
-            let r = if src.chance(150) { RefExpr::Literal(gen_literal(src, lv.as_ref())) } else { gen_expr(src, d + 1, hint, o) };
+            let r = if src.chance(24) {
+                l.clone()
+            } else if src.chance(150) {
+                RefExpr::Literal(gen_literal(src, lv.as_ref()))
+            } else {
+                gen_expr(src, d + 1, hint, o)
+            };
             RefExpr::Cmp(op, b(l), b(r))
         }
         8 => RefExpr::Not(b(gen_expr(src, d + 1, hint, o))),
